@@ -416,6 +416,17 @@ def std_axioms_sanity(out):
         out.undecided.append('an assumed std axiom is FALSE on a concrete string, the C11 lemmas are not trustworthy: ' + line[:400])
 
 
+def formats_sanity(out):
+    """bounded check of the assumption about serde_json / ron / rmp-serde (newtype protocol, transparent encoding)"""
+    env = dict(pipeline.ENV)
+    env['CARGO_TARGET_DIR'] = os.path.join(pipeline.VERIF, 'target', 'formats')
+    rc, o, e, _ = pipeline.sh(['cargo', 'run', '--release', '--offline', '-q'], cwd=os.path.join(pipeline.VERIF, 'vf', 'formats'), env=env, timeout=1800)
+    line = (o.strip().splitlines() or [e[-300:]])[-1]
+    out.bounded.append('assumption "JSON/RON/MessagePack follow serde\'s newtype protocol and encode a newtype struct as its inner value" executed on sample documents against the real crates (bounded): %s' % line[:300])
+    if rc != 0:
+        out.undecided.append('a supported format does not follow the assumed newtype protocol on a sample document: ' + line[:400])
+
+
 def run_property(prop, tier, seed):
     out = Outcome(prop, tier, seed)
     if prop == 'C16':
@@ -429,6 +440,8 @@ def run_property(prop, tier, seed):
         verus_part(out, prop, decls)
         if prop == 'C11':
             std_axioms_sanity(out)
+        if prop in ('C04', 'C10'):
+            formats_sanity(out)
         from vf import kani_side
         kani_side.kani_part(out, prop, tier, seed)
     except Undecided as e:
